@@ -121,7 +121,7 @@ def h_resolve(e0: bool, e1: bool, e2: bool, e3: bool, e4: bool, e5: bool, e6: bo
     return True
 
 
-def h_isystem(first_sys: bool, e_i: bool, e_s: bool, quote: bool, e_local: bool) -> bool:
+def h_isystem(first_sys: bool, e_i: bool, e_s: bool, quote: bool, e_local: bool, both: bool) -> bool:
     """
     post: _
     """
@@ -134,6 +134,10 @@ def h_isystem(first_sys: bool, e_i: bool, e_s: bool, quote: bool, e_local: bool)
     fs.add("/r/s1/x.h", ["@"], exists=e_s)
     fs.add("/r/src/x.h", ["@"], exists=e_local)
     argv = ["-isystem", "/r/s1", "-I", "/r/i1"] if first_sys else ["-I", "/r/i1", "-isystem", "/r/s1"]
+    if both:
+        # the system directory is ALSO named with -I, in front of everything: a compiler ignores that -I and still
+        # searches the directory at its place among the system directories
+        argv = ["-I/r/s1"] + argv
     STATS["compared"] += 1
     if P.get("_twin"):
         return False
